@@ -83,7 +83,7 @@ def qualified(harness):
     return 'verif_hooks::harness::%s::%s' % (g, harness) if g else harness
 
 
-def run_one(scratch, harness, slot, timeout, extra_args=()):
+def run_one(scratch, harness, slot, timeout, extra_args=(), keep_output=False):
     group = group_of(harness) or 'none'
     tdir = os.path.join(WORK, 'ktarget', 'slot%d' % slot, group)
     os.makedirs(tdir, exist_ok=True)
@@ -149,6 +149,8 @@ def run_one(scratch, harness, slot, timeout, extra_args=()):
         res['output_tail'] = tail
     if res['status'] != 'ok':
         res['output_tail'] = out[-3000:]
+    if keep_output:
+        res['full_output'] = out
     return res
 
 
@@ -156,7 +158,7 @@ def norm(s):
     return re.sub(r'\s+', ' ', s).strip()
 
 
-def run_harnesses(repo, harnesses, jobs=8, timeout=900, extra_args=()):
+def run_harnesses(repo, harnesses, jobs=8, timeout=900, extra_args=(), playback=True):
     """harnesses: list of names.  Returns (results, meta)."""
     meta = {'scratch': None}
     if not harnesses:
@@ -172,7 +174,13 @@ def run_harnesses(repo, harnesses, jobs=8, timeout=900, extra_args=()):
             def work(h):
                 slot, lock = acquire_slot()
                 try:
-                    return run_one(scratch, h, slot, timeout, extra_args)
+                    r = run_one(scratch, h, slot, timeout, extra_args)
+                    if r['status'] == 'failed' and playback:
+                        # Kani's counterexample: the concrete values of every kani::any() of the harness
+                        r2 = run_one(scratch, h, slot, min(timeout, 1800), list(extra_args) + ['-Z', 'concrete-playback', '--concrete-playback=print'], keep_output=True)
+                        mt = re.search(r'Concrete playback unit test.*?```(.*?)```', r2.get('full_output', ''), re.S)
+                        r['concrete_playback'] = mt.group(1).strip() if mt else None
+                    return r
                 finally:
                     release_slot(lock)
             for r in ex.map(work, list(harnesses)):
